@@ -37,6 +37,44 @@ def run(chk):
     chk.sample(dict(source=owners[0], bytecode=codes[0], checker=verdict[0]))
     chk.sample(dict(source=owners[-1], bytecode=codes[-1], checker=verdict[-1]))
 
+    # ---- every construct leaves exactly one value, whatever its operands turn out to be at run time --------------------
+    # The static analysis gives each instruction a fixed stack effect; the VM has to honour it on its data-dependent
+    # paths too (a key that is not a string, an operand that failed, a callee that is not callable ...).  A sentinel
+    # pushed before the construct must still be where the enclosing constructor expects it afterwards.
+    KS = ["k0", "ub", "l1", "ks"]
+    xs = []
+    for K in KS:
+        xs += ["{'a': 1, %s: 2}" % K, "{%s: 1, 'a': 2}" % K, "{'a': 1, %s: 2, 'b': 3}" % K, "{'a': z0, %s: 2, %s: 3}" % (K, K),
+               "{'a': 1, 'b': 2, 'c': 3, %s: 4}" % K, "{%s: {'a': 1, %s: 2}}" % (K, K), "l1[%s]" % K, "m1[%s]" % K, "%s[0]" % K, "%s.f" % K,
+               "%s.f(1, 2)" % K, "%s(1, 2)" % K, "size(%s)" % K, "f'{%s}{l1}'" % K, "%s ? 1 : 2" % K, "match %s { case 1: 2, case _: 3 }" % K,
+               "match k0 { case %s: 1, case _: 2 }" % K, "match k0 { case > %s: 1 }" % K, "%s || ks" % K, "(1 / z0) && %s" % K, "!%s" % K,
+               "-%s" % K, "l1.map(v, %s)" % K, "%s.map(v, v)" % K, "l1.reduce(a, v, a + %s, 0)" % K, "has(%s.a.b)" % K,
+               "coalesce(%s, 1 / z0, 3)" % K, "[1, %s, 3]" % K, "%s in l1" % K, "l1.filter(v, %s)" % K, "l1.map(%s, 2)" % K,
+               "l1.all(v, v > %s)" % K, "l1.exists_one(v, %s)" % K, "[1, 2].map(v, %s, v)" % K, "fa(%s, 2)" % K, "timestamp(%s)" % K]
+    xs += ["[1 / z0, 2]", "l1[99]", "m1.nosuch", "nosuch(1, 2)", "l1.nosuch(1, 2)", "fa(1 / z0, 2)", "(1 / z0) ? 1 : 2", "l1.map(v, v / z0)",
+           "l1.map(1, 2)", "{'a': 1 / z0, 'b': 2}", "{'a': 1}.a.b.c", "[[1, 2][5], 3]", "int('x')", "[1, 2].map(v, v)[7]"]
+    embeds = [("[7, %s][0]", "i7"), ("[%s, 7][1]", "i7"), ("{'s': 7, 't': %s}.s", "i7"), ("fargs(7, %s)[0]", "i7"), ("[7, %s, 8][2]", "i8"),
+              ("[[7, %s][0], 9][1]", "i9"), ("[7, [%s]][0]", "i7"), ("7 + size([%s]) - 1", "i7")]
+    pb = [("k0", vi(0)), ("ks", vs("z")), ("l1", vlist([vi(1), vi(2)])), ("m1", vmap([("a", vi(1))])), ("z0", vi(0))]
+    pcases, pinfo = [], []
+    for x in xs:
+        for emb, want in embeds:
+            src = emb % x
+            pcases.append(evalsrc_case(src, binds=pb, ufuncs=[("fa", "arg0"), ("fargs", "args")], std=False))
+            pinfo.append((src, want))
+    pimpl, pmodel = tie(chk, "sentinel probes", pcases, labels=[a for a, _ in pinfo])
+    for (src, want), c, r in zip(pinfo, pcases, pimpl):
+        if is_dead(r):
+            continue
+        k, payload, _ = split_result(r)
+        if not (k in ("ERR", "CERR") or (k == "OK" and payload == want)):
+            chk.violation("a construct did not leave exactly one value on the stack: a value pushed before it is not where the "
+                          "enclosing constructor takes it from", dict(source=src, impl=r, expected="OK %s (or a failure)" % want, case=c))
+    chk.stream("sentinel probes: %d constructs on data-dependent paths (non-string keys, failed / unbound / ill-typed operands, "
+               "callees that are not callable) x %d enclosing constructors that consume positionally" % (len(xs), len(embeds)),
+               len(pcases), len(pcases), exhaustive=True)
+    chk.sample(dict(source=pinfo[0][0], impl=pimpl[0], expected=pinfo[0][1]))
+
     # the VM's own bounds checks: arbitrary instruction sequences with forward and out-of-range jumps
     m = 3000 if chk.tier == "quick" else 30000
     plain = ["P i1", "P i2", "P b1", "P b0", "P n", "P Ediv", "pop", "dup", "test", "not", "neg", "add", "sub", "lt",
@@ -59,11 +97,11 @@ def run(chk):
             else:
                 code.append(rng.choice(plain))
         vcases.append("run %s P( %s C( %s ) ) B( %s i7 ) F( )" % (hx("main"), hx("main"), " ".join(code), hx("x")))
-    vi, vm = tie(chk, "vm-jump-bounds", vcases)
-    oob = sum(1 for r in vi if r.startswith("ERR Erun"))
+    vires, vmres = tie(chk, "vm-jump-bounds", vcases)
+    oob = sum(1 for r in vires if r.startswith("ERR Erun"))
     chk.stream("random instruction sequences with forward, end-of-block and out-of-range jumps on the VM", m,
                len(set(vcases)), note="%d ended in the Runtime error of the range/stack checks" % oob)
-    chk.sample(dict(case=vcases[0], impl=vi[0], model=vm[0]))
+    chk.sample(dict(case=vcases[0], impl=vires[0], model=vmres[0]))
     chk.cov["rule"] = ("programs from the typed expression generator (every operator, nested ||/&&/?:/match, calls, macros, "
                        "f-strings) rendered with three parenthesisation and three white-space policies; distinct = distinct "
                        "bytecode; plus random raw instruction sequences for the VM's bounds checks")
